@@ -35,6 +35,8 @@ def cmd_run(argv):
     indices = None
     if os.environ.get('VERIF_INDICES'):
         indices = [int(x) for x in os.environ['VERIF_INDICES'].split(',')]
+    if os.environ.get('VERIF_INDICES_FILE'):
+        indices = [int(x) for x in open(os.environ['VERIF_INDICES_FILE']).read().split()]
     eng = registry.engine_for(prop)
     t0 = time.time()
     nviol = 0
@@ -45,6 +47,8 @@ def cmd_run(argv):
                 fh.write(json.dumps({'truncated_at': i}) + '\n')
                 break
             faulthandler.dump_traceback_later(RUN_TIMEOUT, exit=True)
+            if os.environ.get('VERIF_TEST_CRASH_AT') == str(i) and indices is None:
+                os._exit(3)             # self-test of the runner's retry path
             seed = rng.run_seed(vseed, prop, i)
             rec = {'i': i, 'seed': seed}
             try:
